@@ -7,7 +7,8 @@
 (* Mode = "delim"  (byte delivery; coba/pipes/sources.py 179-198           *)
 (*   HttpSource._byte_it_, 213-248 DelimSource, 79-113 DiskSource,         *)
 (*   coba/pipes/sinks.py 90-102 DiskSink.write).                           *)
-(*   A text is a sequence of characters x, y, E (a two-byte character),    *)
+(*   A text is a sequence of characters x, y (the driver sends a blank    *)
+(*   for y, a letter for x), E (a two-byte character),                     *)
 (*   W (a three-byte character), L (LF) and C (CR LF); it is delivered as  *)
 (*   bytes cut into chunks at an arbitrary set of positions.  The state    *)
 (*   machine Feed / End is the reference line assembler (incremental       *)
